@@ -68,8 +68,10 @@ class Canonicalizer:
     def _canonicalize_variable(self, variable: Variable) -> Variable:
         return variable
 
-    def _sorted_key(self, variable: Variable) -> int:
-        return self.ordering_level[variable.name]
+    def _sorted_key(self, variable: Variable) -> tuple[int, tuple[str, str], str]:
+        # variables that share a name (value marks, counterfactual worlds) tie on the level: break the tie
+        # so that the result does not depend on the order in which they were given
+        return self.ordering_level[variable.name], _variable_sort_key(variable), variable.to_text()
 
     def canonicalize(self, expression: Expression) -> Expression:
         """Canonicalize an expression.
